@@ -117,36 +117,81 @@ theorem matchRoots_complete (xs ys : List K) (t : K) (hx : t ∈ xs) (hy : t ∈
       · exact ih hx' (fun z hz => hpos z (List.mem_cons_of_mem _ hz))
 end quad
 
-/-- **quadratic lookup**: a result other than −1 is a root in [0,1] of the x-equation B_x(r) = q_x, and lies
-    within 2e-7 of a root in [0,1] of the y-equation B_y(y) = q_y. -/
+/-- what the helper `roots` returns: a genuine root in [0,1], or the vertex of a parabola whose discriminant is negligible — where the
+    equation's residual is D/(4a), at most 1e-9 of the larger of b² and |4ac| over 4|a| -/
+theorem rootsOrDouble_spec (a b c r : ℝ) (h : r ∈ rootsOrDouble Real.sqrt a b c) :
+    (0 ≤ r ∧ r ≤ 1) ∧ |a * r * r + b * r + c| ≤ (1 : ℝ) / 1000000000 * max (b * b) |4 * a * c| / (4 * |a|) := by
+  unfold rootsOrDouble at h
+  simp only at h
+  split_ifs at h with h1 h2 h3
+  · simp only [List.mem_singleton] at h
+    subst h
+    refine ⟨h3, ?_⟩
+    have ha : a ≠ 0 := h1.2
+    have hres : a * (-b / (2 * a)) * (-b / (2 * a)) + b * (-b / (2 * a)) + c = -(b * b - 4 * a * c) / (4 * a) := by
+      field_simp; ring
+    rw [hres, abs_div, abs_neg, abs_mul, abs_of_pos (by norm_num : (0 : ℝ) < 4)]
+    exact div_le_div_of_nonneg_right h2 (by positivity)
+  · simp at h
+  · simp at h
+  · obtain ⟨hr, heq, _⟩ := (Roots.quadraticRoots_mem_iff _ _ _ r).mp h
+    refine ⟨hr, ?_⟩
+    rw [heq, abs_zero]
+    positivity
+
+/-- **quadratic lookup**: a result other than −1 lies in [0,1], satisfies the x-equation B_x(r) = q_x up to the residual bound of
+    `rootsOrDouble_spec` (exactly, unless q sits where x turns round), and is within 2e-7 of a parameter y in [0,1] that satisfies the
+    y-equation in the same sense. -/
 theorem quad_tOfPoint_root (a b c q : Pt ℝ) (r : ℝ) (hr : quadTOfPoint Real.sqrt a b c q = r) (hne : r ≠ -1) :
-    (0 ≤ r ∧ r ≤ 1 ∧ quad_pointAtTime_x a.x a.y b.x b.y c.x c.y r = q.x) ∧
-    ∃ y, 0 ≤ y ∧ y ≤ 1 ∧ quad_pointAtTime_y a.x a.y b.x b.y c.x c.y y = q.y ∧ |r - y| < 1 / 5000000 := by
+    ((0 ≤ r ∧ r ≤ 1) ∧ |quad_pointAtTime_x a.x a.y b.x b.y c.x c.y r - q.x| ≤
+        (1 : ℝ) / 1000000000 * max (quad_tOfPoint_coeffs_bx a.x a.y b.x b.y c.x c.y q.x q.y * quad_tOfPoint_coeffs_bx a.x a.y b.x b.y c.x c.y q.x q.y)
+          |4 * quad_tOfPoint_coeffs_ax a.x a.y b.x b.y c.x c.y q.x q.y * quad_tOfPoint_coeffs_cx a.x a.y b.x b.y c.x c.y q.x q.y|
+          / (4 * |quad_tOfPoint_coeffs_ax a.x a.y b.x b.y c.x c.y q.x q.y|)) ∧
+    ∃ y, (0 ≤ y ∧ y ≤ 1) ∧ |quad_pointAtTime_y a.x a.y b.x b.y c.x c.y y - q.y| ≤
+        (1 : ℝ) / 1000000000 * max (quad_tOfPoint_coeffs_by a.x a.y b.x b.y c.x c.y q.x q.y * quad_tOfPoint_coeffs_by a.x a.y b.x b.y c.x c.y q.x q.y)
+          |4 * quad_tOfPoint_coeffs_ay a.x a.y b.x b.y c.x c.y q.x q.y * quad_tOfPoint_coeffs_cy a.x a.y b.x b.y c.x c.y q.x q.y|
+          / (4 * |quad_tOfPoint_coeffs_ay a.x a.y b.x b.y c.x c.y q.x q.y|) ∧ |r - y| < 1 / 5000000 := by
   unfold quadTOfPoint at hr
   simp only [quad_tOfPoint_coeffs] at hr
   split_ifs at hr with hempty
   · exact absurd hr.symm hne
-  · set xr := quadraticRoots Real.sqrt (quad_tOfPoint_coeffs_ax a.x a.y b.x b.y c.x c.y q.x q.y)
+  · set xr := rootsOrDouble Real.sqrt (quad_tOfPoint_coeffs_ax a.x a.y b.x b.y c.x c.y q.x q.y)
       (quad_tOfPoint_coeffs_bx a.x a.y b.x b.y c.x c.y q.x q.y) (quad_tOfPoint_coeffs_cx a.x a.y b.x b.y c.x c.y q.x q.y) with hxr
-    set yr := quadraticRoots Real.sqrt (quad_tOfPoint_coeffs_ay a.x a.y b.x b.y c.x c.y q.x q.y)
+    set yr := rootsOrDouble Real.sqrt (quad_tOfPoint_coeffs_ay a.x a.y b.x b.y c.x c.y q.x q.y)
       (quad_tOfPoint_coeffs_by a.x a.y b.x b.y c.x c.y q.x q.y) (quad_tOfPoint_coeffs_cy a.x a.y b.x b.y c.x c.y q.x q.y) with hyr
-    have hpos : ∀ x ∈ xr, 0 ≤ x := fun x hx => ((Roots.quadraticRoots_mem_iff _ _ _ x).mp hx).1.1
+    have hpos : ∀ x ∈ xr, 0 ≤ x := fun x hx => (rootsOrDouble_spec _ _ _ x hx).1.1
     rcases matchRoots_spec xr yr hpos with h1 | ⟨h1, y, hy, h2, h3⟩
     · rw [h1] at hr; exact absurd hr.symm hne
     · rw [hr] at h1 h2 h3
-      obtain ⟨⟨r0, r1⟩, hreq, _⟩ := (Roots.quadraticRoots_mem_iff _ _ _ r).mp h1
-      obtain ⟨⟨y0, y1⟩, hyeq, _⟩ := (Roots.quadraticRoots_mem_iff _ _ _ y).mp hy
-      refine ⟨⟨r0, r1, ?_⟩, y, y0, y1, ?_, ?_⟩
-      · simp only [gen_def] at hreq ⊢; linarith
-      · simp only [gen_def] at hyeq ⊢; linarith
+      obtain ⟨hr01, hres⟩ := rootsOrDouble_spec _ _ _ r h1
+      obtain ⟨hy01, hyres⟩ := rootsOrDouble_spec _ _ _ y hy
+      refine ⟨⟨hr01, ?_⟩, y, hy01, ?_, ?_⟩
+      · have e : quad_pointAtTime_x a.x a.y b.x b.y c.x c.y r - q.x =
+            quad_tOfPoint_coeffs_ax a.x a.y b.x b.y c.x c.y q.x q.y * r * r + quad_tOfPoint_coeffs_bx a.x a.y b.x b.y c.x c.y q.x q.y * r
+              + quad_tOfPoint_coeffs_cx a.x a.y b.x b.y c.x c.y q.x q.y := by simp only [gen_def]; ring
+        rw [e]; exact hres
+      · have e : quad_pointAtTime_y a.x a.y b.x b.y c.x c.y y - q.y =
+            quad_tOfPoint_coeffs_ay a.x a.y b.x b.y c.x c.y q.x q.y * y * y + quad_tOfPoint_coeffs_by a.x a.y b.x b.y c.x c.y q.x q.y * y
+              + quad_tOfPoint_coeffs_cy a.x a.y b.x b.y c.x c.y q.x q.y := by simp only [gen_def]; ring
+        rw [e]; exact hyres
       · rw [abs_lt]; exact ⟨by linarith, h3⟩
+
+/-- **F29**: the point of the quadratic (0,0) (1,1) (0,3) at t = 1/2, where x turns round: the x-equation has a double root, which the
+    solver alone does not report (it wants a positive discriminant); with the helper the lookup answers 1/2 -/
+theorem quad_stationary_lookup :
+    quadraticRoots Real.sqrt (0 - 2 * 1 + 0) (2 * (1 - 0)) (0 - 1 / 2) = [] ∧
+    rootsOrDouble Real.sqrt (0 - 2 * 1 + 0) (2 * (1 - 0)) (0 - 1 / 2) = [1 / 2] := by
+  constructor
+  · norm_num [Roots.quadraticRoots_eq_model, Roots.qrModel]
+  · unfold rootsOrDouble
+    norm_num [Roots.quadraticRoots_eq_model, Roots.qrModel]
 
 /-- K5 (known finding) on the model: a quadratic that is constant in x never finds its own points -/
 theorem quad_constant_coordinate_counterexample :
     quadTOfPoint Real.sqrt ⟨40, -200⟩ ⟨40, 190⟩ ⟨40, 130⟩ ⟨40, 0⟩ = -1 := by
   unfold quadTOfPoint
   simp only [quad_tOfPoint_coeffs, gen_def]
-  norm_num [Roots.quadraticRoots_eq_model, Roots.qrModel]
+  norm_num [rootsOrDouble, Roots.quadraticRoots_eq_model, Roots.qrModel]
 
 /-! ### cubics: the coarse search always answers inside [0, 1] -/
 
